@@ -231,6 +231,7 @@ pub const WORKLOADS: &[&str] = &[
     "tie_storm",
     "cross_thread_merge_few",
     "cross_thread_merge_many",
+    "cross_thread_merge_sequential",
     "stride_scan",
 ];
 
@@ -506,6 +507,43 @@ pub fn run_workload(name: &str, n: usize, seed: u64, rep: &mut Report) {
                     }
                 }
             }
+            "cross_thread_merge_sequential" => {
+                // the same, but every thread has finished before the next one starts (a later thread reuses the stack and
+                // thread-local block of an earlier one: whatever per-thread state is derived from addresses or recycled
+                // identifiers repeats)
+                let k = 400.min(n / 64).max(2);
+                let per = (n / k).clamp(8, 1500);
+                for j in 0..k {
+                    let part = std::thread::Builder::new()
+                        .stack_size(64 << 20)
+                        .spawn(move || {
+                            let mut tr: Treap<KeyItem> = Treap::new();
+                            for i in 0..per {
+                                if j % 2 == 0 {
+                                    tr.insert_at(i, item((j * per + i) as u64));
+                                } else {
+                                    tr.insert_at(0, item((j * per + i) as u64));
+                                }
+                            }
+                            tr
+                        })
+                        .expect("spawn")
+                        .join();
+                    let part = match part {
+                        Ok(p) => p,
+                        Err(_) => {
+                            cx.violation("panic", Json::obj().set("what", "a thread building its own treap panicked"));
+                            return;
+                        }
+                    };
+                    let old = std::mem::take(&mut t);
+                    t = if j % 3 == 2 { lib!(Treap::merge(part, old)) } else { lib!(Treap::merge(old, part)) };
+                    len += per;
+                    if !cx.staged(&t, len) {
+                        return;
+                    }
+                }
+            }
             "stride_scan" => {
                 // A treap whose elements are every q-th created node (q - 1 scratch nodes are created and dropped between two
                 // insertions) is a lawful history for every q. Screening: the priorities of the next M created nodes are
@@ -516,9 +554,23 @@ pub fn run_workload(name: &str, n: usize, seed: u64, rep: &mut Report) {
                 let prios: Vec<u32> = (0..m).map(|i| lib!(TreapNode::new(item(i as u64))).priority).collect();
                 cx.rep.count("priorities_sampled", m as u64);
                 let mut scored: Vec<(f64, usize, usize, usize)> = Vec::new(); // (ratio, stride, len, height)
-                for q in 1..=4096usize {
+                // every stride up to 4096, then 2^k * {1, 3, 5, 7} as far as 64 elements remain (what survives "delete every
+                // second element" r times is the stride 2^r)
+                let mut strides: Vec<usize> = (1..=4096usize).collect();
+                let mut pw = 8192usize;
+                while pw <= m / 64 {
+                    for odd in [1usize, 3, 5, 7] {
+                        if pw / 2 * odd > 4096 && pw / 2 * odd <= m / 64 {
+                            strides.push(pw / 2 * odd);
+                        }
+                    }
+                    pw *= 2;
+                }
+                strides.sort_unstable();
+                strides.dedup();
+                for q in strides {
                     let l = (m / q).min(3000);
-                    if l < 256 {
+                    if l < 64 {
                         break;
                     }
                     let sub: Vec<u32> = (0..l).map(|i| prios[i * q]).collect();
